@@ -9,6 +9,16 @@ COMMON_NOTE = ("Trusted: Coq 8.16.1 kernel and its VM (vm_compute; no native_com
                "(virtual clock, scheduler, canonicalisation, case printer). ")
 # id -> (text, note, technique, design_ref)
 CLAIMED = {
+ "C05": ("Theorems for every number of tasks, every program and every schedule at the granularity of single backend commands: a step of one task never touches another "
+         "task's state and a task outside any block acts on the store directly (no capture); a task inside a block changes the store only at its commit, only if its "
+         "body ended normally, and writes exactly the overlay / delete set obtained from its own write commands (6-part per-transaction invariant); lock invariant "
+         "(4 parts) giving mutual exclusion of lock holders within their timeout; in LOCKED / SERIALIZABLE mode, with nobody inside a block beyond the timeout, a counter "
+         "written by increments of blocks equals its initial value plus the increments of the committed blocks (4-part counter invariant on top of the other two); "
+         "serializable write phases never overlap. Real tasks (context-manager form, ONE shared decorated function, nested forms, direct commands) run under the "
+         "deterministic scheduler with every backend command gated; the command log with store snapshots is replayed on the model and judged by an oracle built from a "
+         "sequential reference of one block. Thorough tier enumerates every schedule of selected 2-task programs per mode.",
+         "asyncio / contextvars / gather are the interpreter's (partial: theorems about the model + replayed logs); exactly-once commit per normally-ended block is checked by the oracle on runs, not proved; one backend, integer values without TTL.",
+         "Coq proof (three stacked invariants over all schedules) + command-log replay from scheduled real tasks, exhaustive schedule enumeration in the thorough tier", "3/C05"),
  "C07": ("Theorems for every event sequence (any number of callers and keys; calls, task starts, body resumptions, done-callbacks and cancellations in any order, "
          "each loop callback its own event - finer than any real schedule): at most one body per key executes (8-part invariant by induction); a call made while a task "
          "is registered joins it and starts nothing; a caller is handed exactly the outcome of the task it joined, a waiter's task stays registered until its callback "
